@@ -1,1 +1,152 @@
-// harnesses for src/sync_mpsc (child module, cfg(kani) only)
+// C06 / C07 (mpsc channel, thread receiver): harnesses over the real src/sync/mpsc.rs.
+// Child module of src/sync/mpsc.rs (cfg(kani) only).
+// Real code: InnerQueue::{new, send, recv, try_recv, drop_chan}, AtomicOption (to_wake).
+// Models: the message queue (may_queue::mpsc, decided in C03) = FIFO; Blocker::{park, unpark} =
+// one wake token (ThreadPark flavour: is_coroutine() = false); crossbeam AtomicCell = one cell.
+use super::*;
+use crate::verif_shim::{np, rt, sa};
+use std::panic as stdpanic;
+
+static mut Q: *const InnerQueue<u8> = std::ptr::null();
+static mut S_PC: usize = 0; // sender program: send(1), send(2), drop_chan
+static mut S_SENDS: usize = 2;
+static mut SENT_DONE: u8 = 0;
+static mut DROP_DONE: bool = false;
+static mut IN_S: bool = false;
+static mut RECEIVED: u8 = 0;
+static mut ROOT_PARKED: bool = false;
+static mut QTAB: [u8; 4] = [0; 4];
+static mut QH: usize = 0;
+static mut QT: usize = 0;
+
+fn is_coroutine_false() -> bool {
+    false
+}
+fn q_push<T>(_q: &Queue<T>, v: T) {
+    np::point();
+    assert!(std::mem::size_of::<T>() == 1);
+    unsafe {
+        assert!(QT < 4);
+        QTAB[QT] = std::mem::transmute_copy::<T, u8>(&v);
+        QT += 1;
+    }
+    std::mem::forget(v);
+}
+fn q_pop<T>(_q: &Queue<T>) -> Option<T> {
+    np::point();
+    unsafe {
+        if QH == QT {
+            None
+        } else {
+            let r = std::mem::transmute_copy::<u8, T>(&QTAB[QH]);
+            QH += 1;
+            Some(r)
+        }
+    }
+}
+fn s_left() -> bool {
+    unsafe { S_PC <= S_SENDS }
+}
+fn run_s() {
+    unsafe {
+        IN_S = true;
+        if S_PC < S_SENDS {
+            let v = (S_PC + 1) as u8;
+            S_PC += 1;
+            assert!((*Q).send(v).is_ok(), "C07: send failed although the receiver is alive");
+            SENT_DONE += 1;
+        } else {
+            S_PC += 1;
+            (*Q).drop_chan();
+            DROP_DONE = true;
+        }
+        IN_S = false;
+    }
+}
+fn hook() {
+    unsafe {
+        if np::DEPTH == 0 && !IN_S && s_left() && kani::any() {
+            np::nested(run_s);
+        }
+    }
+}
+fn unpark_model(b: &Blocker) {
+    np::point();
+    unsafe { *crate::sync::blocking::verif_kani::blocker_token(b) = 1 };
+}
+fn park_model(b: &Blocker, _timeout: Option<Duration>) -> Result<(), crate::park::ParkError> {
+    np::point();
+    let tok = crate::sync::blocking::verif_kani::blocker_token(b);
+    unsafe {
+        if *tok != 0 {
+            *tok = 0;
+            return Ok(());
+        }
+        ROOT_PARKED = true;
+        let mut i = 0;
+        while *tok == 0 && s_left() && i < 3 {
+            run_s();
+            i += 1;
+        }
+        if *tok == 0 {
+            assert!(SENT_DONE == RECEIVED, "C06: receiver stays parked for ever although a sent value is queued (lost wake-up)");
+            assert!(!DROP_DONE, "C07: receiver stays parked for ever after the last sender was dropped");
+            kani::assume(false);
+        }
+        *tok = 0;
+        Ok(())
+    }
+}
+
+#[kani::proof]
+#[kani::unwind(4)]
+#[kani::stub(core::sync::atomic::Atomic::<bool>::load, sa::bool_load)]
+#[kani::stub(core::sync::atomic::Atomic::<usize>::load, sa::usize_load)]
+#[kani::stub(core::sync::atomic::Atomic::<usize>::fetch_sub, sa::usize_fetch_sub)]
+#[kani::stub(crossbeam::atomic::AtomicCell::swap, rt::cell_swap)]
+#[kani::stub(crossbeam::atomic::AtomicCell::store, rt::cell_store)]
+#[kani::stub(crossbeam::atomic::AtomicCell::take, rt::cell_take)]
+#[kani::stub(may_queue::mpsc::Queue::push, q_push)]
+#[kani::stub(may_queue::mpsc::Queue::pop, q_pop)]
+#[kani::stub(crate::sync::blocking::Blocker::park, park_model)]
+#[kani::stub(crate::sync::blocking::Blocker::unpark, unpark_model)]
+#[kani::stub(crate::coroutine_impl::is_coroutine, is_coroutine_false)]
+#[kani::stub(std::thread::panicking, np::panicking_stub)]
+#[kani::stub(stdpanic::catch_unwind, rt::catch_unwind_stub)]
+#[kani::stub(stdpanic::take_hook, rt::take_hook_stub)]
+#[kani::stub(stdpanic::set_hook, rt::set_hook_stub)]
+#[kani::stub(std::sync::Arc::drop_slow, rt::arc_drop_slow_stub)]
+fn c06_mpsc_thread_recv_vs_sends_and_drop_d1() {
+    let q: &'static InnerQueue<u8> = Box::leak(Box::new(InnerQueue::new()));
+    let n: usize = kani::any();
+    kani::assume(n <= 2);
+    unsafe {
+        Q = q;
+        S_SENDS = n;
+        np::HOOK = Some(hook);
+    }
+    // the receiver calls recv until Disconnected (at most n + 2 calls: Empty can follow a wake-up)
+    let mut i = 0;
+    let mut disconnected = false;
+    while i < 4 && !disconnected {
+        match q.recv(None) {
+            Ok(v) => unsafe {
+                assert!(v == RECEIVED + 1, "C06: value received out of order, twice, or never sent");
+                assert!((v as usize) <= S_PC, "C06: received a value whose send has not started");
+                RECEIVED += 1;
+            },
+            Err(TryRecvError::Empty) => {}
+            Err(TryRecvError::Disconnected) => unsafe {
+                assert!(DROP_DONE, "C07: Disconnected reported while a sender is alive");
+                assert!(RECEIVED as usize == n, "C07: Disconnected reported before the queued values were drained");
+                disconnected = true;
+            },
+        }
+        hook();
+        i += 1;
+    }
+    unsafe {
+        kani::cover!(disconnected && RECEIVED == 2 && ROOT_PARKED, "two values then Disconnected, receiver parked at least once");
+        kani::cover!(disconnected && np::PREEMPTS >= 2, "sender operations landed inside recv");
+    }
+}
